@@ -482,6 +482,11 @@ pub uninterp spec fn iter_items<I: IntoIterator>(it: I) -> Seq<I::Item>;
 pub broadcast proof fn axiom_iter_items<I: Iterator>(it: I)
     ensures #[trigger] iter_items(it) == IteratorSpec::remaining(&it) {}
 // TRUSTED: (A-std) `Vec::extend` appends the items of the iterator, in order
+// ASSUMED (std): usize::div_ceil is the ceiling of the quotient (not in vstd); lets header arithmetic written with it be decided
+pub assume_specification[ usize::div_ceil ](a: usize, b: usize) -> (r: usize)
+    requires b != 0,
+    ensures r as int == (if a % b == 0 { (a / b) as int } else { a / b + 1 });
+
 pub assume_specification<T, A: std::alloc::Allocator, I: IntoIterator<Item = T>>[ <Vec<T, A> as Extend<T>>::extend ](v: &mut Vec<T, A>, it: I)
     ensures final(v)@ == old(v)@ + iter_items(it);
 /// little-endian u32 words of a byte string (complete words only; up to 3 trailing bytes are not a word)
